@@ -120,22 +120,15 @@ def hashDiffClass (a b : List Char) : String :=
       if hnorm va == hnorm vb && (ha != hnorm va || hb != hnorm vb) then "implicit-scan" else "unclassified"
     | _, _ => "unclassified"
 
-/-- The events of a text without the brace events the comparator may skip. -/
-def leaves (inp : List Char) : List Event :=
-  (events inp).1.filter fun e => !(e.beq .startBody || e.beq .endRecord)
-
-def evsSame : List Event → List Event → Bool
-  | [], [] => true
-  | e :: a, f :: b => e.beq f && evsSame a b
-  | _, _ => false
-
 /-- Why two texts of different values compare equal (classified on the model; narrow on purpose):
-`same-leaves` — the two event streams differ only in where `StartBody`/`EndRecord` stand: the comparator skips braces
-  wherever the streams disagree and its size bookkeeping (`ValueType::len` is additive) cannot tell `{{1,1}}` from
-  `{1,{1}}` (finding C15-N3) — and the comparator as modelled gives the same answer;
-anything else (a merge the modelled code would not make, or of texts with different leaves) is `other`. -/
+`same-leaves` — both texts are valid single values, their event streams differ only in where `StartBody`/`EndRecord`
+  stand, and the comparator as modelled gives the same answer: it skips braces wherever the streams disagree and its
+  size bookkeeping (`ValueType::len` is additive) cannot tell `{{1,1}}` from `{1,{1}}` (finding C15-N3).
+  `C15_merge_class_exact` proves that this is every merge the modelled comparator can make;
+anything else (a merge the modelled code would not make) is `other`. -/
 def mergeClass (a b : List Char) : String :=
-  if evsSame (leaves a) (leaves b) && compareRecon a b then "same-leaves" else "other"
+  if (events a).2 = .fin && (events b).2 = .fin && singleB (events a).1 && singleB (events b).1 &&
+     evsAgree (leavesOf (events a).1) (leavesOf (events b).1) && compareRecon a b then "same-leaves" else "other"
 
 /-- The property on one `pair` line, from the implementation's answers alone. -/
 def pairVerdict (ha hb : String) (out : String) : Option String :=
@@ -223,7 +216,17 @@ def Mon.step (m : Mon) (op out : String) : Mon × Option String :=
     let v : Option Value := match resDec (out.drop 4).toString with | some (.ok v) => some v | _ => none
     ({ m with vals := (h, v) :: m.vals }, if out == "val=panic" then some "panic" else none)
   | ["ev", _] => (m, if (words out).getLast? == some "panic" then some "panic" else none)
-  | ["hash", _] => (m, if out == "calls=panic" then some "panic" else none)
+  | ["hash", h] =>
+    if out == "calls=panic" then (m, some "panic")
+    else
+      -- self-check of the model: the text-level hash is the event-level hash of the text's events (the link between
+      -- `hashCalls` and the theorems about `hashEvs`), once the implicit-record decision is event based
+      match charsOfHex h with
+      | some t =>
+        if Generated.ReconEq.implicitByStructure && inFloatFragment t && (events t).2 = .fin &&
+            hashCalls t != hashEvs [] (events t).1 then (m, some "model-self-check:hash-events")
+        else (m, none)
+      | none => (m, none)
   | ["pair", a, b] => (m, pairVerdict a b out)
   | "keys" :: hs => (m, keysVerdict m hs out)
   | _ => (m, none)
